@@ -131,6 +131,13 @@ def r1_accept_tolerates_errors(ctx):
     unbounded = [b for b, t in sleeps if not _bounded_duration(acc, t["args"][0])]
     ctx.check(R, "retry-pause-is-bounded", not unbounded, "pauses on the error path of tcp.accept(): %d, of which not bounded by a constant: %d" % (len(sleeps), len(unbounded)),
               (acc, unbounded[0]) if unbounded else esite, nontrivial=bool(sleeps))
+    # Added after adversary change C18-L (the same 100 ms pause was added to the arm of the TLS stream that swallows a failed handshake:
+    # that arm runs in the one task that accepts sockets and delivers finished negotiations, so every broken handshake made the HTTPS
+    # front end deaf for 100 ms and a trickle of ten per second wedged it): the accept path pauses only where accept(2) itself failed
+    others = [(f2, b2) for f2, b2, t2 in callers(D, r"^tokio::time::sleep$|^tokio::time::sleep_until$|^std::thread::sleep$")
+              if not f2.id.startswith("test_util") and not (f2 is acc and b2 in f_err.reach)]
+    ctx.check(R, "no-other-pause-on-the-accept-path", not others, "sleep calls outside the error path of tcp.accept(): %s" % ([f2.id for f2, _ in others] or "none"),
+              others[0] if others else esite, nontrivial=False)
     inloop = abb in acc.loop_blocks()
     ctx.check(R, "tcp-accept-in-retry-loop", inloop, "tcp.accept() lies on a cycle: %s" % inloop, (acc, abb))
     # ---- TLS stream
@@ -154,6 +161,30 @@ def r1_accept_tolerates_errors(ctx):
         # the accept branch of that select is irrefutable: a HttpAcceptor::accept future, so `else` needs both disabled
         acs = sc.live_calls(r"^server::HttpAcceptor::accept$")
         ctx.check(R, "tls-stream-accepts-through-HttpAcceptor", len(acs) == 1 and acs[0][0] in sc.loop_blocks(), "HttpAcceptor::accept calls inside the stream loop: %d" % len(acs), sc)
+        # Added after adversary change C18-K (the accept branch of the select! got the precondition `if tls_negotiations.len() < 128`: with
+        # 128 handshakes stalled -- there is no handshake timeout -- accept(2) is never called again and every new client hangs): the
+        # branch that accepts connections carries no precondition; nothing a peer does can disable it
+        accept_idx = set()
+        for g in D.descendants(sc):
+            if "macros/select.rs" not in (g.raw.get("span") or ""):
+                continue
+            polls = [(b, t) for b, t in g.live_calls(r"Future::poll$") if "HttpAcceptor::accept" in (t.get("resolved") or "")]
+            heads = [b for b, t in g.live_calls(r"iter::Iterator::next$")]
+            for sbb, t in g.switches():
+                d = t["discr"]
+                if d.get("k") in ("copy", "move") and not d["pl"]["p"] and g.local_ty(d["pl"]["l"]) == "u32":
+                    for v, tgt in t["targets"]:
+                        if any(b in g.reachable(tgt, avoid=heads + [sbb]) for b, _ in polls):
+                            accept_idx.add(v)
+        gated = []
+        for bb, i, st in sc.stmts():
+            rv = st["rv"]
+            if bb in sc.reachable(0) and rv["rv"] == "binop" and rv["op"] == "Shl" and rv["b"].get("k") == "const" and (rv["a"].get("val") or {}).get("int") == 1 \
+                    and sc.local_ty(st["pl"]["l"]) == "u8" and (rv["b"].get("val") or {}).get("int") in accept_idx:
+                gated.append(bb)
+        ctx.check(R, "tls-stream-accept-branch-is-unconditional", len(accept_idx) == 1 and not gated,
+                  "select! branch that polls HttpAcceptor::accept: %s; reachable code that can disable it (a branch precondition): %d site(s)" % (sorted(accept_idx) or "not found", len(gated)),
+                  (sc, gated[0]) if gated else sc)
     # ---- server task
     r = server_task(ctx.ds)
     if isinstance(r, str):
